@@ -129,17 +129,30 @@ def file_key(path):
     return os.path.splitext(os.path.basename(path or ""))[0]
 
 
-def observe_parse(main_path, trad=False, timeout_s=10):
-    """Parses in-process; returns (proto|None, outcome event)."""
+def observe_parse(main_path, trad=False, timeout_s=10, wall_backstop_s=900):
+    """Parses in-process; returns (proto|None, outcome event).
+
+    'never hangs' is observed as a limit on the CPU time the parse may use (ITIMER_VIRTUAL counts the
+    process's user time only), so a loaded machine cannot turn a slow run into a verdict; a wall-clock
+    backstop far above it ends a run that blocks without computing -- that is reported as a failure of
+    the machinery, not as an outcome."""
     common.use_repo()
     from bitproto.errors import ParserError
     from bitproto.parser import parse
     import signal
 
-    def on_alarm(signum, frame):
-        raise TimeoutError("parse exceeded %ss" % timeout_s)
-    old = signal.signal(signal.SIGALRM, on_alarm)
-    signal.alarm(timeout_s)
+    class _WallBackstop(Exception):
+        pass
+
+    def on_cpu(signum, frame):
+        raise TimeoutError("parse used more than %ss of CPU time" % timeout_s)
+
+    def on_wall(signum, frame):
+        raise _WallBackstop()
+    old_v = signal.signal(signal.SIGVTALRM, on_cpu)
+    old_a = signal.signal(signal.SIGALRM, on_wall)
+    signal.setitimer(signal.ITIMER_VIRTUAL, timeout_s)
+    signal.alarm(wall_backstop_s)
     try:
         try:
             proto = parse(main_path, traditional_mode=trad)
@@ -149,6 +162,9 @@ def observe_parse(main_path, trad=False, timeout_s=10):
                           "file": file_key(e.filepath), "line": int(e.lineno or 0)}
         except TimeoutError:
             return None, {"ev": "Outcome", "outcome": "hang", "what": "timeout", "file": "", "line": 0}
+        except _WallBackstop:
+            raise common.MachineryError("parse of %s neither finished nor used %ss of CPU within %ss of wall time"
+                                        % (main_path, timeout_s, wall_backstop_s))
         except OSError as e:
             return None, {"ev": "Outcome", "outcome": "oserror", "what": type(e).__name__, "file": "", "line": 0}
         except RecursionError as e:
@@ -157,8 +173,10 @@ def observe_parse(main_path, trad=False, timeout_s=10):
             cls, where = drive.exc_signature(e)
             return None, {"ev": "Outcome", "outcome": "raise", "what": "%s@%s" % (cls, where), "file": "", "line": 0}
     finally:
+        signal.setitimer(signal.ITIMER_VIRTUAL, 0)
         signal.alarm(0)
-        signal.signal(signal.SIGALRM, old)
+        signal.signal(signal.SIGVTALRM, old_v)
+        signal.signal(signal.SIGALRM, old_a)
 
 
 def all_protos(proto, acc=None, seen=None):
